@@ -24,12 +24,26 @@ def name_sets(r, quick):
          "testhashs64_fnv1", "testhashu64_fnv1", "testhashs32_fnv1a", "testhashu32_fnv1a", "testhashs64_fnv1a", "testhashu64_fnv1a", "testf", "testf2", "testf3",
          "flex", "vector_of_longs", "vector_of_doubles", "parent_namespace_test", "testbase64"],
     ]
-    n = 12 if quick else 300
+    # prefix chains inside one 8-byte window with siblings that branch off the middle of the chain (they are reached only through
+    # the prefix-guard label of the chain's median)
+    sets += [["ab", "abc", "abcd", "abce"], ["prefix8_v", "prefix8_va", "prefix8_val", "prefix8_vax"], ["r", "rw", "rwa", "rwx", "rx"],
+             ["k", "ka", "kab", "kabc", "kabcd", "kb", "kac", "kabd", "kabce"]]
+    n = 16 if quick else 300
     al = "abcxyz_019"
-    for _ in range(n):
+    for it in range(n):
         mode = r.random()
         names = set()
-        if mode < 0.3:       # prefix chain with window-straddling lengths
+        if it % 4 == 3:      # chain within a window + branches off every chain member
+            base = "".join(r.choice("abcdefgh") for _ in range(r.choice([0, 0, 8, 8, 16, 5])))
+            room = 8 - len(base) % 8
+            chain = [base + "p"]
+            for _ in range(r.randint(2, max(2, min(5, room - 1)))):
+                chain.append(chain[-1] + r.choice("abc"))
+            names.update(chain)
+            for c in chain:
+                for _ in range(r.randint(0, 2)):
+                    names.add(c + r.choice("xyz") + "".join(r.choice(al) for _ in range(r.choice([0, 0, 1, 3, 9]))))
+        elif mode < 0.3:       # prefix chain with window-straddling lengths
             base = "".join(r.choice("abcdefgh") for _ in range(r.choice([1, 3, 7, 8])))
             cur = base
             for L in sorted(r.sample([1, 2, 6, 7, 8, 9, 10, 15, 16, 17, 18, 23, 24, 25, 31, 32, 33, 40], r.randint(2, 8))):
